@@ -53,7 +53,7 @@ def cursor_sig(facts, b):
     for _, bl, s in assigns(b):
         if s["place"]["l"] == 2 and "*" in mirq.place_fields(s["place"]):
             src = pv.of_rvalue(s["rv"], 0)
-            sig.add("assigns cursor.%s <- %s" % (".".join(mirq.field_path(s["place"])), shape(src)))
+            sig.add("writes cursor%s <- %s" % ("".join("." + x for x in mirq.field_path(s["place"])), shape(src)))
     for c in mirq.closure_bodies(facts, b):
         ups = c.get("upvars") or []
         for k, u in enumerate(ups):
@@ -61,12 +61,19 @@ def cursor_sig(facts, b):
             if base == cname or base.startswith(cname + "."):
                 wrote = []
                 cpv = Prov(c)
+                # locals holding the captured `&mut cursor.x` (MIR copies the upvar into a temp before writing through it)
+                holders = set()
+                for _, bl, s in assigns(c):
+                    if not s["place"]["p"] and s["rv"]["k"] == "use":
+                        src = mirq.operand_place(s["rv"]["op"])
+                        if src is not None and src["l"] == 1 and str(k) in mirq.place_fields(src):
+                            holders.add(s["place"]["l"])
                 for _, bl, s in assigns(c):
                     fl = mirq.place_fields(s["place"])
-                    if s["place"]["l"] == 1 and str(k) in fl and "*" in fl:
+                    if "*" in fl and ((s["place"]["l"] == 1 and str(k) in fl) or s["place"]["l"] in holders):
                         wrote.append(shape(cpv.of_rvalue(s["rv"], 0)))
                 if wrote:
-                    sig.add("closure writes %s <- %s" % (base.replace(cname, "cursor", 1), "|".join(sorted(set(wrote)))))
+                    sig.add("writes %s <- %s" % (base.replace(cname, "cursor", 1), "|".join(sorted(set(wrote)))))
                 else:
                     sig.add("closure captures %s" % base.replace(cname, "cursor", 1))
     return frozenset(sig)
@@ -100,12 +107,27 @@ def shape(roots):
     return "+".join(sorted(out)) or "?"
 
 
+# how the token reaches the write (Option::map closure, `?`, a match, the mapping closure) is plumbing, not part of what is recorded
+_PLUMBING = {"branch", "next", "next_maybe", "next_ref", "call", "tuple", "from_residual", "Continue", "Break", "?"}
+
+
+def _deplumb(effect):
+    if " <- " not in effect:
+        return effect
+    lhs, rhs = effect.split(" <- ", 1)
+    alts = []
+    for alt in rhs.split("|"):
+        alts.append("+".join(x for x in alt.split("+") if x not in _PLUMBING) or "?")
+    return lhs + " <- " + "|".join(sorted(set(alts)))
+
+
 def rule_reader_sib(facts):
     r = RuleResult("READER-SIB")
     groups = reader_bodies(facts)
     n = 0
     for st, ms in sorted(groups.items()):
         sigs = {nm: cursor_sig(facts, b) for nm, b in ms.items()}
+        sigs = {nm: (sg if isinstance(sg, tuple) else frozenset(_deplumb(x) for x in sg)) for nm, sg in sigs.items()}
         concrete = {nm: s for nm, s in sigs.items() if not (isinstance(s, tuple) and s and s[0] == "delegate")}
         n += len(ms)
         vals = set(concrete.values())
@@ -119,6 +141,17 @@ def rule_reader_sib(facts):
             r.violations.append(V("READER-SIB", st, "token readers of one input disagree",
                                   "the readers (next / next_maybe / next_ref) of input type %s must move the cursor identically "
                                   "(same sub-fields advanced / recorded); they differ: %s" % (st, diff), *loc(b)))
+        # absolute part: the concrete effect equals the reviewed one (a single reader, or all siblings changed alike)
+        want = IT.READER_EFFECTS.get(st)
+        if concrete and len(vals) == 1:
+            got = sorted(_deplumb(x) for x in list(vals)[0])
+            ok = want is not None and got == sorted(_deplumb(x) for x in want)
+            r.ob(ok)
+            if not ok:
+                b = list(ms.values())[0]
+                r.violations.append(V("READER-SIB", st, "cursor effect of the token reader",
+                                      "the token reader(s) of %s must move / record the cursor as reviewed in spec/input_table.py "
+                                      "(READER_EFFECTS): expected %s, computed %s" % (st, want, got), *loc(b)))
         # a delegate must point at a concrete sibling
         for nm, s in sigs.items():
             if isinstance(s, tuple) and s and s[0] == "delegate":
@@ -301,6 +334,42 @@ def rule_span_empty(facts):
     r.info = {"span bodies": n, "two-token path values": two}
     r.require_floor(n, facts, "SPAN-EMPTY.bodies", "Input::span bodies")
     r.require_floor(two, facts, "SPAN-EMPTY.two_token", "two-token span path values")
+    return r
+
+
+def rule_span_impl(facts):
+    """src/span.rs: Span accessors, constructors, defaults and conversions keep start and end apart."""
+    r = RuleResult("SPAN-IMPL")
+    seen = {}
+    for b in facts.bodies:
+        if b["kind"] == "Closure":
+            continue
+        q = b["qname"]
+        is_span_impl = b.get("impl_trait") == "span::Span" or q.startswith("span::Span::")
+        if q not in IT.SPAN_IMPL and not is_span_impl:
+            continue
+        pv = Prov(b)
+        pv.max_depth = 30
+        got = fmt_roots(pv.of_local(0))
+        seen[q] = got
+        want = IT.SPAN_IMPL.get(q)
+        ok = want == got
+        r.ob(ok)
+        if len(r.samples) < 4:
+            r.samples.append({q: got})
+        if not ok:
+            r.violations.append(V("SPAN-IMPL", q, "span accessor / constructor provenance",
+                                  "%s must return `%s` (start and end each taken from their own bound, in order); computed `%s`"
+                                  % (q, want, got), *loc(b)))
+    for q in IT.SPAN_IMPL:
+        if q not in seen:
+            r.errors.append("anchor %s: no such body in src/span.rs" % q)
+    r.explanation = ("the %d Span trait methods (three implementations + the defaults to_end / union) and span conversions return the "
+                     "reviewed provenance term: start() <- the start bound, end() <- the end bound, new keeps the range in order, "
+                     "to_end = end..end, union = min(starts)..max(ends)" % len(seen))
+    r.nontrivial = len(seen)
+    r.info = {"computed": seen}
+    r.require_floor(len(seen), facts, "SPAN-IMPL.bodies", "span.rs bodies")
     return r
 
 
